@@ -121,7 +121,7 @@ def run(ck):
     alpha = ["a", "b", ".", "[", "]", "0", "1", "+", "-", " ", "é", "9", "c"]
     weird = ["", ".", "..", "a.", ".a", "a..b", "a[", "a]", "a[]", "a[0", "a[0]]", "a[[0]", "a[0][1]", "a[+1]",
              "a[-1]", "a[ 1]", "a[18446744073709551615]", "a[18446744073709551616]", "a[00]", "[0]", "a.[0]",
-             "a[0].b", "a]b[", "é[0]", "a[0]é]", "a[1]x]"]
+             "a[0].b", "a]b[", "é[0]", "a[0]é]", "a[1]x]", "a[1]]", "a[1]0]", "a]b[1]", "a]b[0]", "b.a[1]]", "a[0]].b", "a[1]].b", "a]b"]
     for _ in range(3000 if thorough else 600):
         n = rng.randint(1, 7)
         weird.append("".join(rng.choice(alpha) for _ in range(n)))
@@ -129,6 +129,7 @@ def run(ck):
         {"a": [["x", "y"], {"b": 1}], "b": {"a": "deep"}, "": {"": "empty"}, "a[0]": "literal", "é": [1, 2]},
         {"a": {"b": {"a": [0, 1, 2]}, "": "e"}, "b": "hit"},
         {"a": "scalar", "b": []},
+        {"a": ["p", "q", "r"], "a]b": ["s", "t"], "b": {"a": ["u", "v"]}, "a[1]]": "lit"},
     ]
     weird_cases = []
     for doc in weird_docs:
@@ -191,6 +192,22 @@ def run(ck):
                                   "doc": c["doc"], "key": key,
                                   "replay_case": {"k": "find", "id": 1, "doc": c["doc"], "keys": [key]}})
                 direct_failed.add(c["id"])
+    # any key string: the lookup must be the reference lookup (Model/Value.v `obj_find`, proved equal
+    # to the descent of Model/PathSpec.v on well-formed paths and pinned to the crate on the others);
+    # a value returned where the reference finds none is a fabricated value, a differing one a wrong one
+    for c in cases + weird_cases:
+        if c["id"] in direct_failed:
+            continue
+        ra, rm = split_results(impl[c["id"]]), split_results(model[c["id"]])
+        for key, a, m in zip(c["keys"], ra, rm):
+            if unparse(a) != unparse(m):
+                if len(direct_failed) < 4:
+                    ck.violation({"property": "C10", "kind": "direct",
+                                  "what": "Object::find differs from the reference lookup on this key (a value from another path, or a value lost)",
+                                  "doc": c["doc"], "key": key, "expected": unparse(m), "crate": unparse(a),
+                                  "replay_case": {"k": "find", "id": 1, "doc": c["doc"], "keys": [key]}})
+                direct_failed.add(c["id"])
+                break
     # nested == dotted whenever the intermediates are objects; nested over arrays = exists
     by_pat = {}
     for c in rule_cases:
